@@ -377,7 +377,15 @@ impl<'s, M: Matcher, S: Sink> Core<'s, M, S> {
             }
             Some(line) => {
                 let range = Range::new(self.pos(), line.start());
-                self.set_pos(line.end());
+                if self.config.stop_on_nonmatch && !range.is_empty() {
+                    // The lines in `range` are about to be reported, so
+                    // `line` is the non-matching line that ends the search.
+                    // Leave it to the slow path, which reports it as context
+                    // (if any is owed) and then stops.
+                    self.set_pos(line.start());
+                } else {
+                    self.set_pos(line.end());
+                }
                 range
             }
         };
